@@ -69,8 +69,9 @@ def only_array_halves_merged(first: dict[str, str], second: dict[str, str]) -> b
     The library joins a 000A/22C9 ' I' to the preceding ' I' of the same code and source when they are
     less than 3 s apart (detect_array_fragment).  Live, a packet that is not saved (an RQ, a W, a
     superseded one) may have arrived between the two halves, so both were kept; restored, they are
-    adjacent and the second absorbs the first.  Only that pattern is recognised here: a lost packet
-    of those codes with a surviving ' I' of the same code and source less than 3 s after it.
+    adjacent and the second absorbs the first (with three relatives in a row the joins chain).  Only that
+    pattern is recognised here: a lost packet of those codes that had a relative - an ' I' of the same code
+    and source - less than 3 s away in the snapshot it was lost from.
     """
     import datetime as _dt
 
@@ -83,9 +84,9 @@ def only_array_halves_merged(first: dict[str, str], second: dict[str, str]) -> b
         if code_of(v) not in ("000A", "22C9") or v[4:6] != " I":
             return False
         t0 = _dt.datetime.fromisoformat(k)
-        if not any(
-            code_of(v2) == code_of(v) and v2[4:6] == " I" and v2[11:20] == v[11:20] and 0 < (_dt.datetime.fromisoformat(k2) - t0).total_seconds() < 3.0
-            for k2, v2 in second.items()
+        if not any(  # a relative (same code, same source, ' I') less than 3 s away, on either side
+            k2 != k and code_of(v2) == code_of(v) and v2[4:6] == " I" and v2[11:20] == v[11:20] and abs((_dt.datetime.fromisoformat(k2) - t0).total_seconds()) < 3.0
+            for k2, v2 in first.items()
         ):
             return False
     return True
@@ -333,7 +334,7 @@ async def run_history(loop: vloop.VirtualLoop, ctx, h: hist.History, stack: str,
             step = 1
         if any(j in at for j in range(i, i + step)):
             include_expired = rng.random() < 0.5
-            meta = dict(h.meta, lists=lists, prefix=i + step, of=len(lines), eavesdrop=eavesdrop, stack=stack, include_expired=include_expired, double_reads_at=list(doubles), packets=[f"{d} {f}" for d, f in lines[: i + step]])
+            meta = dict(h.meta, lists=lists, full_gaps=rig.full_gaps, prefix=i + step, of=len(lines), eavesdrop=eavesdrop, stack=stack, include_expired=include_expired, double_reads_at=list(doubles), packets=[f"{d} {f}" for d, f in lines[: i + step]])
             await check_snapshot(loop, ctx, rig, include_expired, meta, cfg)
             ctx.seen(f"{h.sig()}|{stack}|{int(eavesdrop)}|{int(include_expired)}")
         i += step
@@ -388,6 +389,7 @@ def replay(data: dict[str, Any]) -> int:
                 if lists["mode"] == "full+hgi+enforced":
                     cfg["enforce_known_list"] = True
                 rig = Rig(loop, ctx, meta["stack"], meta["eavesdrop"], cfg=cfg, lists=lists)
+                rig.full_gaps = meta.get("full_gaps", True)
                 await rig.start()
                 doubles = set(meta.get("double_reads_at", ()))
                 i = 0
